@@ -194,6 +194,9 @@ def selftest_main(seed, which=None):
             if r.returncode == 1 and "VIOLATION property=%s" % pid in r.stdout:
                 cls = [l.strip() for l in r.stdout.splitlines() if l.strip().startswith("class=")]
                 print("SELFTEST seeded %s: caught by %s (%s)" % (name, pid, cls[0][:80] if cls else ""))
+            elif meta.get("not_detected") and r.returncode == 0:
+                # a documented limit of the generators (DESIGN.md 12.5): reported, not counted as a regression
+                print("SELFTEST seeded %s: not detected by %s - documented limit: %s" % (name, pid, meta["not_detected"][:100]))
             else:
                 print("SELFTEST seeded %s: MISSED by %s (rc %d)" % (name, pid, r.returncode))
                 rc = 1 if rc == 0 else rc
